@@ -1221,6 +1221,19 @@ func segmentNamesGroup(c *Ctx, rule string) {
 		}
 	}
 	c.Decide(len(globs) == 0, rule, "wal#no-glob-on-directory", globPos, 1, "segments are not discovered through a glob pattern built from the directory path", "package wal lists files with FS.Glob (in "+strings.Join(globs, ", ")+"): a directory path containing [, *, ? or \\ is interpreted as a pattern, no segment is found, replay is empty and the reopened log truncates its first segment")
+	// the value log writes its segment names with the same %05d and must read them back whole too
+	var vscans []string
+	var vscanPos token.Pos
+	for _, f := range c.P.ModFuncs {
+		if FuncPkgPath(f) != Module+"/vlog" {
+			continue
+		}
+		for _, ci := range Calls(f, false, Named("fmt.Sscanf", "fmt.Sscan", "fmt.Fscanf", "fmt.Sscanln")) {
+			vscans = append(vscans, FuncName(f))
+			vscanPos = ci.Pos()
+		}
+	}
+	c.Decide(len(vscans) == 0, rule, "vlog#no-width-limited-scan", vscanPos, 1, "value-log segment ids are not parsed with a width-limited scan verb", "package vlog parses segment names with fmt.Sscan* (in "+strings.Join(vscans, ", ")+"): `%05d` reads at most five digits, so after the log rotates into 100000.vlog a reopened value log no longer finds that segment (acknowledged values fail with `value log file not found`) and the next rotation re-creates it over the old data")
 	c.Decide(len(scans) == 0, rule, "wal#no-width-limited-scan", scanPos, 1, "segment ids are not parsed with a width-limited scan verb", "package wal parses names with fmt.Sscan* (in "+strings.Join(scans, ", ")+"): `%05d` reads at most five digits, so segments with id >= 100000 are invisible to replay and resume")
 	c.Decide(len(strSorts) == 0, rule, "wal#no-name-order", sortPos, 1, "segments are not ordered by name", "package wal orders segment paths as strings (in "+strings.Join(strSorts, ", ")+"): 100000.wal sorts before 99999.wal, so records would be replayed out of order")
 	// the lister: whichever function of package wal reads the directory
@@ -1970,6 +1983,33 @@ func internalKeysHiddenGroup(c *Ctx, rule string) {
 		}
 	}
 	c.Decide(pref && access, rule, key(fn, "skips-internal-prefix-unless-InternalAccess"), fn.Pos(), 2, "internal bookkeeping keys are not yielded to users", "TxnIterator.advance yields keys with the engine's internal prefix: the discard-statistics entry that Close writes shows up in full scans (one key more after a clean close and reopen)")
+	// the plain DB iterator hides them as well (it has no internal-access mode)
+	if pf := c.Fn("", "DBIterator.populate"); pf != nil {
+		hides := false
+		for _, hp := range Calls(pf, false, Named("bytes.HasPrefix")) {
+			if u, ok := hp.Common().Args[1].(*ssa.UnOp); ok {
+				if g, ok := u.X.(*ssa.Global); ok && g.Name() == "internalKeyPrefix" {
+					// the true edge leads on to the next entry, never to the emit
+					for e := range boolValueEdges(pf, hp.Value(), true) {
+						emit := false
+						for _, st := range fieldStoresIn(pf, false, "NoKV.DBIterator", "valid") {
+							if sv, isSt := st.(*ssa.Store); isSt {
+								if k, isC := sv.Val.(*ssa.Const); isC && k.Value != nil && k.Value.String() == "true" {
+									if reach, _ := reachFromBlock(pf, e[1], st, instrs(Calls(pf, false, MethodNamed("utils.Iterator", "Next")))); reach {
+										emit = true
+									}
+								}
+							}
+						}
+						if !emit {
+							hides = true
+						}
+					}
+				}
+			}
+		}
+		c.Decide(hides, rule, key(pf, "skips-internal-prefix"), pf.Pos(), 2, "internal bookkeeping keys are not yielded by the DB iterator", "DBIterator.populate yields keys with the engine's internal prefix: after value-log discard statistics were flushed (no client write) a full scan shows the key !NoKV!discard")
+	}
 	// the statistics key has the prefix
 	if obj := c.P.LookupObj("", "lfDiscardStatsKey"); obj == nil {
 		c.Errorf("UNRESOLVED-ANCHOR NoKV.lfDiscardStatsKey")
